@@ -61,6 +61,7 @@ class Session:
             "shave_backtrack": 0,
             "max_top": 0,
             "bc_inconsistent": 0,
+            "ent_then_fail": 0,
             "alg_bound": 0,
             "pushes": 0,
         }
@@ -182,6 +183,9 @@ def _wrap_bc(orig):
             status = orig(*a)
             if s.detail and status != nx.PROBLEM_INCONSISTENT:
                 _close_exec(s)
+            if status == nx.PROBLEM_INCONSISTENT and s.cur_pass.get("last", (None, None))[1] == nx.PROP_ENTAILMENT:
+                # the last execution answered ENTAILMENT but its write-back emptied a domain: its outcome is the inconsistency
+                s.n["ent_then_fail"] += 1
         finally:
             s.pass_budget, s.pass_bound, s.cur_pass = saved_budget, saved_bound, saved_pass
         if status == nx.PROBLEM_INCONSISTENT:
